@@ -1338,6 +1338,10 @@ def m_try_branch(ex, st, fr, callee, a, depth):
         if v.variant == 'Ok':
             return EnumV('ControlFlow', 'Continue', 0, (v.fields[0],))
         return EnumV('ControlFlow', 'Break', 1, (EnumV('Result', 'Err', 1, (v.fields[0],)),))
+    if isinstance(v, EnumV) and v.enum == 'Option':
+        if v.variant == 'Some':
+            return EnumV('ControlFlow', 'Continue', 0, (v.fields[0],))
+        return EnumV('ControlFlow', 'Break', 1, (EnumV('Option', 'None', 0, ()),))
     raise Inconclusive('Try::branch on %r' % (v,))
 
 
